@@ -18,7 +18,7 @@ import subprocess
 import tempfile
 import threading
 
-STUBS = ["ls", "echo", "git", "rm", "frobnicate", "zap", "cat", "head", "okcmd", "5", "-", "X", "a", "c", "pod", "STOP"]
+STUBS = ["ls", "echo", "git", "rm", "frobnicate", "zap", "cat", "head", "okcmd", "5", "-", "X", "a", "c", "pod", "STOP", "A=1", "B[0]+=x"]
 
 STUB_TEXT = """#!/bin/bash
 { for a in "${0##*/}" "$@"; do printf 'A%s\\0' "$a"; done; printf 'END\\0'; } >> '%LOG%'
